@@ -26,7 +26,7 @@
     with 3a over all tables at once, and the scripts whose dropped generated-name index
     is matched with an unnamed one. *)
 From Coq Require Import List NArith Bool Arith Permutation.
-From Atlas Require Import Base.Bytes Diff.Schema Diff.DiffModel Diff.DiffSqlite Diff.DiffDialects Diff.DiffProofs Diff.DiffSqliteProofs Diff.DiffDialectsProofs Diff.DiffSqliteCopy.
+From Atlas Require Import Base.Bytes Diff.Schema Diff.DiffModel Diff.DiffSqlite Diff.DiffDialects Diff.DiffProofs Diff.DiffSqliteProofs Diff.DiffDialectsProofs Diff.DiffSqliteCopy Diff.DiffMysqlVariants Diff.DiffMysqlVariantsProofs Diff.DiffUnnamedProofs.
 Import ListNotations.
 
 (** 1a. Generic: for every driver whose callbacks report nothing on identical
@@ -408,6 +408,166 @@ Theorem C02_no_similar_index :
   similar_unnamed_index D to idx1 = None.
 Proof. exact similar_unnamed_none. Qed.
 
+
+(** * Round 3 *)
+
+(** 5a. indexDiffT with unnamed desired indexes, for every driver and every pair of tables:
+    every current index contributes by its own partner -- its namesake, or, under a generated
+    name, the first similar unnamed desired index ([partner_pos]) -- a ModifyIndex with the
+    bits of indexChange, nothing, or a DropIndex; every desired index is added unless its
+    position is the partner of some current index ([claimed]) or it has a namesake.  The
+    [exists] set of the Go code is exactly the set of claimed positions. *)
+Theorem C02_indexes_unnamed_exact :
+  forall (D : DiffDriver) (skip : tag -> bool) from to,
+  index_diff_t D skip from to =
+  add_or_skip skip (flat_map (from_step D from to) (t_idx from) ++ add_step D from to 0 (t_idx to)).
+Proof. exact index_diff_t_unnamed. Qed.
+
+(** 5b. "a current index without a partner is dropped, a desired one without a partner is added,
+    each desired index is the partner of at most one current index" is FALSE for all three
+    differs: two current UNIQUE (age) with the generated names age, age_2 and ONE similar
+    unnamed desired index give no DropIndex; against TWO unnamed desired ones (nothing
+    differs) they give an AddIndex.  Reproduced on the Go code for MySQL, PostgreSQL and SQLite
+    (harness class unnamed-group; known finding
+    C02-similar-generated-indexes-share-one-unnamed-partner). *)
+Theorem C02_unnamed_group_refuted :
+  exists from to1 to2 c1 c2 u,
+    t_idx from = [c1; c2] /\ t_idx to1 = [u] /\ t_idx to2 = [u; u] /\ i_name u = [] /\
+    mysql_is_generated_index_name from c1 = true /\ mysql_is_generated_index_name from c2 = true /\
+    idx_match mysql_driver c1 u = true /\ idx_match mysql_driver c2 u = true /\
+    index_diff_t mysql_driver no_skip from to1 = [] /\
+    index_diff_t mysql_driver no_skip from to2 = [AddIndex []].
+Proof.
+  exists w_grp_from, w_grp_to1, w_grp_to2, (w_uq s_age), (w_uq s_age_2), (w_uq []).
+  destruct w_group_generated as [G1 [G2 [M1 M2]]].
+  repeat split; try reflexivity; try assumption.
+Qed.
+
+(** ... what holds: a current index is dropped exactly when it has no namesake and -- unless its
+    name is not a generated one -- no similar unnamed desired index at all (also one that is
+    already the partner of another current index exempts it). *)
+Theorem C02_unnamed_group_except :
+  forall (D : DiffDriver) from to c,
+  from_step D from to c = [DropIndex (i_name c)] <->
+  find_idx (i_name c) (t_idx to) = None /\
+  (dd_is_generated_index_name D from c = false \/ similar_unnamed_index D to c = None).
+Proof. exact from_step_drop. Qed.
+
+(** 5d. ... and when no two current indexes share a partner ([positions]: the partner positions of
+    the current indexes, in order, without repetition) and partners are positions of the desired
+    list, the pairs are counted once on each side: as many desired indexes are exempt from
+    AddIndex by a partner as current indexes are exempt from DropIndex by one.  (The witness of
+    5b violates exactly the NoDup hypothesis: positions = [0; 0].) *)
+Theorem C02_unnamed_pairing_count :
+  forall (D : DiffDriver) from to,
+  NoDup (positions D from to (t_idx from)) ->
+  (forall k, In k (positions D from to (t_idx from)) -> k < length (t_idx to)) ->
+  length (filter (claimed D from to) (seq 0 (length (t_idx to)))) = length (filter (has_partner D from to) (t_idx from)).
+Proof. exact pairing_count. Qed.
+
+(** 5c. "functional_index_2, functional_index_3, ... are names generated by MySQL" is not what
+    IsGeneratedIndexName says: only functional_index itself is recognised (strings.TrimLeft with
+    the name's own characters as cutset leaves ""), so such an index is dropped and re-added
+    when the desired state lists it unnamed (known finding
+    C02-mysql-functional-index-n-not-recognised). *)
+Theorem C02_mysql_functional_index_refuted :
+  (exists t idx, i_name idx = FUNCTIONAL_INDEX ++ [95;50]%N /\ mysql_is_generated_index_name t idx = false) /\
+  (exists t idx, i_name idx = FUNCTIONAL_INDEX /\ mysql_is_generated_index_name t idx = true).
+Proof.
+  destruct w_functional_index as [A B]. split.
+  - exists w_grp_from, (w_fi s_fi2). split; [reflexivity|exact B].
+  - exists w_grp_from, (w_fi FUNCTIONAL_INDEX). split; [reflexivity|exact A].
+Qed.
+Theorem C02_mysql_functional_index_except :
+  forall t idx rest, i_name idx = FUNCTIONAL_INDEX ++ ch_us :: rest -> mysql_is_generated_index_name t idx = false.
+Proof. exact mysql_functional_suffix_never. Qed.
+
+(** 6a. The MySQL differ of EVERY server variant (CHECK support, functional-index support,
+    charset -> default collation and collation -> charset tables -- all that mysql.Open and
+    mysqlversion let the differ depend on, except lower_case_table_names and display widths)
+    satisfies the laws, with [mysql_dwf_v]: [mysql_dwf], columns carrying charset and collation
+    together, and no CHECK on a server without CHECK support ... *)
+Theorem C02_mysql_variant_laws :
+  forall v, refl_laws (mysql_driver_v v) /\ sim_laws (mysql_driver_v v) (mysql_dwf_v v).
+Proof. exact (fun v => conj (mysql_refl_laws_v v) (mysql_sim_laws_v v)). Qed.
+
+(** ... hence self, copy and every reordering give the empty diff on every server. *)
+Theorem C02_mysql_variant_perm_empty :
+  forall v (skip : tag -> bool) s s', wf_schema (mysql_dwf_v v) s -> schema_perm s s' ->
+  mysql_schema_diff_v v skip s s' = Some [].
+Proof. exact (fun v skip => schema_diff_perm (mysql_driver_v v) skip (mysql_dwf_v v) (mysql_refl_laws_v v) (mysql_sim_laws_v v)). Qed.
+
+(** 6b. ColumnChange of every variant: the union of the seven attribute bits; the charset /
+    collation bits compare the current column with the desired one *after* defaultCharset /
+    defaultCollate completed it from the variant's tables ([mysql_fill]): a lone charset counts
+    with its default collation, a lone collation with its charset. *)
+Theorem C02_mysql_variant_column_bits :
+  forall v t c c', c_class c <> 0%N -> c_class c' <> 0%N -> mysql_supported_class (c_class c) = true ->
+  mysql_column_change_v v t c c' =
+  Some (N.lor (N.lor (N.lor (N.lor (N.lor (N.lor
+          (comment_change (c_comment c) (c_comment c'))
+          (bit (negb (Bool.eqb (c_null c) (c_null c'))) ChangeNull))
+          (bit (negb (N.eqb (c_class c) (c_class c')) || negb (str_eqb (fld 0 (c_T c)) (fld 0 (c_T c')))) ChangeType))
+          (bit (mysql_default_changed c c') ChangeDefault))
+          (bit (mysql_generated_changed c c') ChangeGenerated))
+          (bit (mysql_cs_changed_v v 1 c c') ChangeCharset))
+          (bit (mysql_cs_changed_v v 2 c c') ChangeCollate)).
+Proof. exact mysql_column_bits_v. Qed.
+
+Theorem C02_mysql_variant_fill :
+  forall v T,
+  ((fld 1 T = [] <-> fld 2 T = []) -> mysql_fill v T = (fld 1 T, fld 2 T)) /\
+  (forall d, fld 1 T <> [] -> fld 2 T = [] -> assoc (fld 1 T) (mv_ch2co v) = Some d -> mysql_fill v T = (fld 1 T, d)) /\
+  (forall d, fld 1 T = [] -> fld 2 T <> [] -> assoc (fld 2 T) (mv_co2ch v) = Some d -> mysql_fill v T = (d, fld 2 T)).
+Proof.
+  intros v T. split; [exact (mysql_fill_together v T)|]. split.
+  - intros d. exact (mysql_fill_lone_charset v T d).
+  - intros d. exact (mysql_fill_lone_collation v T d).
+Qed.
+
+(** 6c. History independence, as far as the model can carry it: a differ's answer is a function
+    of its variant and the pair, and of the variant's tables it reads only the entries of the
+    desired column's own lone charset / lone collation -- two servers whose tables agree there
+    (however they differ elsewhere, whatever other servers added) give the same ColumnChange.
+    That the Go differs ARE such functions (no table shared or extended across differs, no
+    answer depending on earlier calls) is what the history stage of the harness checks. *)
+Theorem C02_mysql_variant_local :
+  forall v v' t from to,
+  assoc (fld 1 (c_T to)) (mv_ch2co v) = assoc (fld 1 (c_T to)) (mv_ch2co v') ->
+  assoc (fld 2 (c_T to)) (mv_co2ch v) = assoc (fld 2 (c_T to)) (mv_co2ch v') ->
+  mysql_column_change_v v t from to = mysql_column_change_v v' t from to.
+Proof. exact mysql_column_change_local. Qed.
+
+(** 6d. On columns that carry charset and collation together a server with CHECK and
+    functional-index support (mysql.DefaultDiff, MySQL >= 8.0.16) is the instance of 4a-4d,
+    whatever its tables say. *)
+Theorem C02_mysql_variant_default :
+  forall v t from to, mv_check v = true -> mv_index_expr v = true -> cs_together to ->
+  dd_column_change (mysql_driver_v v) t from to = dd_column_change mysql_driver t from to /\
+  (forall i, dd_is_generated_index_name (mysql_driver_v v) t i = dd_is_generated_index_name mysql_driver t i) /\
+  (forall t', dd_table_attr_diff (mysql_driver_v v) t t' = dd_table_attr_diff mysql_driver t t').
+Proof. exact mysql_driver_v_default. Qed.
+
+(** 6e. A server without CHECK support refuses every desired table that has a CHECK. *)
+Theorem C02_mysql_variant_no_check :
+  forall v from to, mv_check v = false -> t_checks to <> [] -> mysql_table_attr_diff_v v from to = None.
+Proof. exact mysql_no_check_error. Qed.
+
+(** 6f. History through the desired graph.  defaultCharset / defaultCollate write what they found
+    into the attributes of the desired column.  Asked again about the same graph, the same
+    differ sees the completed pair and answers the same (completion is idempotent) ... *)
+Theorem C02_mysql_fill_idempotent_except :
+  forall v p, fill_pair v (fill_pair v p) = fill_pair v p.
+Proof. exact fill_pair_idempotent. Qed.
+
+(** ... but "the answer does not depend on which differ saw the graph before" is FALSE: a lone
+    charset utf8mb4 completed by a 5.7 server (utf8mb4_general_ci) is not what an 8.0 server
+    makes of it (utf8mb4_0900_ai_ci).  Reproduced on the Go code (history stage, pass 3b; known
+    finding C02-mysql-differ-writes-server-defaults-into-desired-graph). *)
+Theorem C02_mysql_fill_other_server_refuted :
+  exists v v' p, fill_pair v' (fill_pair v p) <> fill_pair v' p.
+Proof. exists w_v57, w_v80, ([117;116;102;56;109;98;52]%N, []). exact fill_pair_other_server. Qed.
+
 (** * Non-vacuity: concrete inputs (vm_compute) *)
 Definition x_a : column := mkColumn [97]%N 2 [105;110;116]%N false None None None.
 Definition x_b : column := mkColumn [98]%N 3 [116;101;120;116]%N true (Some (DLit [39;120;39]%N)) None None.
@@ -500,6 +660,47 @@ Proof. split; vm_compute; reflexivity. Qed.
 Example C02_ex_no_similar : similar_unnamed_index mysql_driver x_t' x_i1 = None.
 Proof. vm_compute. reflexivity. Qed.
 
+(* round 3: a desired column with the lone charset utf8mb4 against a current utf8mb4 / utf8mb4_general_ci
+   column: nothing on a 5.7 server (utf8mb4 defaults to utf8mb4_general_ci), ChangeCollate on 8.0 *)
+Definition x_v57 : mysql_variant := mkMyVariant false false [([117;116;102;56;109;98;52]%N, [117;116;102;56;109;98;52;95;103;101;110;101;114;97;108;95;99;105]%N)] [].
+Definition x_v80 : mysql_variant := mkMyVariant true true [([117;116;102;56;109;98;52]%N, [117;116;102;56;109;98;52;95;48;57;48;48;95;97;105;95;99;105]%N)] [].
+Definition x_cg : column := mkColumn [103]%N MY_STRING [118;97;114;99;104;97;114;40;49;48;48;41;31;117;116;102;56;109;98;52;31;117;116;102;56;109;98;52;95;103;101;110;101;114;97;108;95;99;105;31;117;116;102;56;109;98;52;31;117;116;102;56;109;98;52;95;103;101;110;101;114;97;108;95;99;105]%N true None None None.
+Definition x_cu : column := mkColumn [103]%N MY_STRING [118;97;114;99;104;97;114;40;49;48;48;41;31;117;116;102;56;109;98;52;31;31;117;116;102;56;109;98;52;31;117;116;102;56;109;98;52;95;103;101;110;101;114;97;108;95;99;105]%N true None None None.
+Example C02_ex_variant_collation :
+  mysql_column_change_v x_v57 x_t x_cg x_cu = Some 0%N /\ mysql_column_change_v x_v80 x_t x_cg x_cu = Some ChangeCollate.
+Proof. split; vm_compute; reflexivity. Qed.
+Example C02_ex_variant_wf : wf_schema (mysql_dwf_v x_v57) (mkSchema [109]%N [mkTable [116]%N false false [x_cg] None [x_i1] [] []]).
+Proof.
+  split; [repeat constructor; simpl; tauto|]. intros t [<-|[]]. split.
+  - constructor; simpl.
+    + repeat constructor; simpl; intuition discriminate.
+    + repeat constructor; simpl; tauto.
+    + intros i [<-|[]]. constructor; [left; discriminate|constructor].
+    + discriminate.
+    + repeat constructor; simpl; tauto.
+  - split; [|split].
+    + split; simpl.
+      * intros c [<-|[]]. split; [discriminate|reflexivity].
+      * intros c c' [].
+    + intros c [<-|[]]. unfold cs_together. vm_compute. split; discriminate.
+    + right. reflexivity.
+Qed.
+Example C02_ex_variant_self :
+  mysql_schema_diff_v x_v57 no_skip (mkSchema [109]%N [mkTable [116]%N false false [x_cg] None [x_i1] [] []])
+                                     (mkSchema [109]%N [mkTable [116]%N false false [x_cg] None [x_i1] [] []]) = Some [].
+Proof. vm_compute. reflexivity. Qed.
+Example C02_ex_unnamed_steps :
+  flat_map (from_step mysql_driver w_grp_from w_grp_to2) (t_idx w_grp_from) = [] /\
+  add_step mysql_driver w_grp_from w_grp_to2 0 (t_idx w_grp_to2) = [AddIndex []] /\
+  claimed mysql_driver w_grp_from w_grp_to2 0 = true /\ claimed mysql_driver w_grp_from w_grp_to2 1 = false.
+Proof. repeat split; vm_compute; reflexivity. Qed.
+Example C02_ex_pairing_positions :
+  positions mysql_driver w_grp_from w_grp_to2 (t_idx w_grp_from) = [0; 0] /\
+  positions mysql_driver w_grp_from (mkTable [116]%N false false [w_grp_col] None [w_uq []] [] []) [w_uq s_age] = [0].
+Proof. split; vm_compute; reflexivity. Qed.
+Example C02_ex_no_check : mysql_table_attr_diff_v x_v57 x_t x_t = None.
+Proof. vm_compute. reflexivity. Qed.
+
 Print Assumptions C02_self_empty.
 Print Assumptions C02_copy_empty.
 Print Assumptions C02_perm_empty.
@@ -530,3 +731,18 @@ Print Assumptions C02_no_similar_index.
 Print Assumptions C02_postgres_udt_type_except.
 Print Assumptions C02_postgres_ns_laws.
 Print Assumptions C02_sqlite_copy_empty.
+Print Assumptions C02_indexes_unnamed_exact.
+Print Assumptions C02_unnamed_group_refuted.
+Print Assumptions C02_unnamed_group_except.
+Print Assumptions C02_mysql_functional_index_refuted.
+Print Assumptions C02_mysql_functional_index_except.
+Print Assumptions C02_mysql_variant_laws.
+Print Assumptions C02_mysql_variant_perm_empty.
+Print Assumptions C02_mysql_variant_column_bits.
+Print Assumptions C02_mysql_variant_fill.
+Print Assumptions C02_mysql_variant_local.
+Print Assumptions C02_mysql_variant_default.
+Print Assumptions C02_mysql_variant_no_check.
+Print Assumptions C02_mysql_fill_idempotent_except.
+Print Assumptions C02_mysql_fill_other_server_refuted.
+Print Assumptions C02_unnamed_pairing_count.
